@@ -326,6 +326,12 @@ class _RawConfigParser(configparser.RawConfigParser):
     # duplicate check and interpolation all look keys up through this hook.
     return _normalise_key(option)
 
+  def get(self, section, option, **kwargs):
+    try:
+      return super(_RawConfigParser, self).get(section, option, **kwargs)
+    except configparser.InterpolationError as e:
+      raise ConfigParserException("Error substituting variables in [{}] '{}': {}".format(section, option, e.message))
+
   def options(self, section):
     # [Variables] is the default section so that ${NAME} resolves everywhere,
     # but its keys are not entries of the other sections.
@@ -383,6 +389,8 @@ class ConfigParser(object):
       cp.read_file(fp)
     except (configparser.DuplicateOptionError, configparser.DuplicateSectionError) as e:
       raise ConfigParserDuplicateEntryException(e.message)
+    except configparser.Error as e:
+      raise ConfigParserException("Error reading configuration file: {}".format(e.message))
 
     # Process overrides
     for override in overrides:
